@@ -147,3 +147,70 @@ def build_cases(recs, tier, seed, key="v"):
             radii = RADII if (tier != "quick" or i == 0) else [RADII[0], RADII[1 + k % (len(RADII) - 1)]]
             cases.append({"rec": r, "pl": pl.to_json(), "radii": [[x.numerator, x.denominator] for x in radii]})
     return cases
+
+
+# ---- C05: containment for box-cored spheropolyhedra (spec/SpheroBox.tla) ------------------------------------------
+def eval_box_inside(case):
+    import numpy as np
+    import coxeter
+    rec = case["rec"]
+    pl = Placement.from_json(case["pl"])
+    out = []
+    hx = rec["h"]
+    r = F(rec["r2"], 2)
+    tags = ["r0" if r == 0 else "r_pos", "h%d%d%d" % tuple(hx)] + pl.tags()
+    corners = [[sx * hx[0], sy * hx[1], sz * hx[2]] for sx in (-1, 1) for sy in (-1, 1) for sz in (-1, 1)]
+    verts = np.array(fl(pl.points(corners)), dtype=float)
+    try:
+        Q = coxeter.shapes.ConvexSpheropolyhedron(verts, float(pl.s * r))
+    except Exception as e:
+        return [({"cls": "ConvexSpheropolyhedron", "obs": "construct", "tags": tags, "msg": str(e)}, {"case": case})], {}
+    keep = [i for i, m in enumerate(rec["mem"]) if m != 2]
+    pts = np.array(fl(pl.points([(F(rec["q2"][i][0], 2), F(rec["q2"][i][1], 2), F(rec["q2"][i][2], 2)) for i in keep])), dtype=float)
+    want = np.array([rec["mem"][i] == 1 for i in keep])
+    try:
+        got = np.asarray(Q.is_inside(pts)).astype(bool)
+        if got.shape != want.shape or not np.array_equal(got, want):
+            j = int(np.nonzero(got != want)[0][0]) if got.shape == want.shape else 0
+            q = rec["q2"][keep[j]]
+            region = sum(1 for k in range(3) if abs(q[k]) > 2 * hx[k])
+            out.append(({"cls": "ConvexSpheropolyhedron", "obs": "is_inside",
+                         "tags": tags + [["core", "face_slab", "edge_cylinder", "vertex_cap"][region]],
+                         "msg": f"point (half-lattice {q}) reported {bool(got[j]) if got.shape == want.shape else got.shape}, exact: distance to the "
+                                f"core {'<' if want[j] else '>'} r = {float(r)}"}, {"case": case}))
+        for j in range(0, len(keep), 53):
+            g1 = np.asarray(Q.is_inside(pts[j]))
+            if g1.shape != (1,) or bool(g1[0]) != bool(want[j]):
+                out.append(({"cls": "ConvexSpheropolyhedron", "obs": "is_inside_single", "tags": tags,
+                             "msg": f"single-point call disagrees with exact membership for half-lattice point {rec['q2'][keep[j]]}"}, {"case": case}))
+                break
+    except Exception as e:
+        out.append(({"cls": "ConvexSpheropolyhedron", "obs": "is_inside", "tags": tags + ["raised"],
+                     "msg": f"raised {type(e).__name__}: {str(e)[:200]}"}, {"case": case}))
+    return out, {"unclear": len(rec["mem"]) - len(keep)}
+
+
+def run_inside(ctx):
+    from . import tlc
+    from .pool import pmap
+    cfg = ("SPECIFICATION Spec\nINVARIANT T1_Monotone\nINVARIANT Emit\nCHECK_DEADLOCK FALSE\nCONSTANTS\n"
+           " HalfExtents = {1}\n Radii2 = {0, 1, 2, 3}\n Reach = 6\n")
+    cfg = cfg.replace("HalfExtents = {1}", "HalfExtents <- HE")
+    res = tlc.run("MC_SpheroBox", cfg, workers=4, timeout=600)
+    ctx.tlc(res, "SpheroBox: exact membership in rounded boxes")
+    if res.violated:
+        ctx.violation({"cls": "spec", "obs": res.violated, "tags": ["T1"], "msg": "SpheroBox.tla inconsistency"}, {"tlc": res.stdout[-1500:]})
+    recs = [r for r in res.records if r.get("k") == "spherobox"]
+    cases = []
+    for r in recs:
+        pal = palette(4, ctx.tier)
+        k = h(r["h"], ctx.seed) + r["r2"]
+        for pl in ([pal[0], pal[1 + k % (len(pal) - 1)]] if ctx.tier == "quick" else pal):
+            cases.append({"rec": r, "pl": pl.to_json()})
+    for case, (mism, st) in zip(cases, pmap(eval_box_inside, cases)):
+        ctx.case(("spherobox", json.dumps(case["rec"]["h"]), case["rec"]["r2"], json.dumps(case["pl"])), nontrivial=True,
+                 sample={"half_extents": case["rec"]["h"], "radius": case["rec"]["r2"] / 2, "placement": case["pl"]})
+        ctx.traces += 1
+        ctx.unclear += st.get("unclear", 0)
+        for sig, detail in mism:
+            ctx.violation(sig, detail)
